@@ -158,7 +158,7 @@ Section Ids.
      have pairwise distinct ids - under the legacy order always, otherwise when no plain resource already carries a
      hashed name (the C07 finding: the HashTransformer does not re-check, and without the re-Append of the legacy sort
      nothing does) *)
-  Theorem build_ids_unique_wf o t outs :
+  Theorem build_ids_unique_guarded o t outs :
     tree_wf t -> build nonstr o t = Ok outs ->
     (match o with
      | PSortLegacy _ _ => True
@@ -609,6 +609,7 @@ Section Fix.
     | PDir _ _ _ =>
         do m <- accumulate nonstr t;
         do m1 <- mapM (hash_res nonstr) m;
+        do _ <- hash_check m1;
         do rules <- pipe_rules;
         do m2 <- nameref_transform pipe_cs nonstr rules m1;
         do m2l <- ignore_local m2;
@@ -621,6 +622,7 @@ Section Fix.
     unfold build, build_pre. destruct t as [docs|n d ents]; [reflexivity|].
     destruct (accumulate nonstr (PDir n d ents)) as [m| | |]; cbn [bind]; try reflexivity.
     destruct (mapM (hash_res nonstr) m) as [m1| | |]; cbn [bind]; try reflexivity.
+    destruct (hash_check m1) as [[]| | |]; cbn [bind]; try reflexivity.
     destruct pipe_rules as [rules| | |]; cbn [bind]; try reflexivity.
     destruct (nameref_transform pipe_cs nonstr rules m1) as [m2| | |]; cbn [bind]; try reflexivity.
     destruct (ignore_local m2) as [m2l| | |]; cbn [bind]; try reflexivity.
@@ -655,6 +657,12 @@ Section Fix.
 
   Lemma hash_loaded docs : mapM (hash_res nonstr) (map load docs) = Ok (map load docs).
   Proof. induction docs as [|n t IH]; cbn [map mapM]; [reflexivity|]. cbn. cbn in IH. rewrite IH. reflexivity. Qed.
+  Lemma hash_check_loaded docs : hash_check (map load docs) = Ok tt.
+  Proof.
+    unfold hash_check.
+    replace (forallb _ (map load docs)) with true; [reflexivity|].
+    symmetry. apply forallb_forall. intros r Hr. apply in_map_iff in Hr as (n & <- & _). reflexivity.
+  Qed.
 
   Lemma remove_loop_all_kept ids kept cur :
     (forall id, In id ids -> existsb (resid_raw_eqb id) kept = true) -> remove_loop ids kept cur = Ok cur.
@@ -697,6 +705,7 @@ Section Fix.
     unfold build_pre. destruct t as [docs|n d ents]; [discriminate|].
     destruct (accumulate nonstr (PDir n d ents)) as [m| | |]; cbn [bind]; try discriminate.
     destruct (mapM (hash_res nonstr) m) as [m1| | |]; cbn [bind]; try discriminate.
+    destruct (hash_check m1) as [[]| | |]; cbn [bind]; try discriminate.
     destruct pipe_rules as [rules| | |]; cbn [bind]; try discriminate.
     destruct (nameref_transform pipe_cs nonstr rules m1) as [m2| | |]; cbn [bind]; try discriminate.
     destruct (ignore_local m2) as [m2l| | |] eqn:EI; cbn [bind]; try discriminate.
@@ -771,7 +780,7 @@ Section Fix.
     unfold build. unfold leaf at 1.
     change (PDir name no_dirs [PFile outs]) with (leaf name outs).
     rewrite (accumulate_leaf name outs Douts NEouts). cbn [bind].
-    rewrite hash_loaded. cbn [bind]. rewrite ER. cbn [bind]. rewrite Hnr. cbn [bind].
+    rewrite hash_loaded. cbn [bind]. rewrite hash_check_loaded. cbn [bind]. rewrite ER. cbn [bind]. rewrite Hnr. cbn [bind].
     rewrite (ignore_local_loaded outs Douts Vouts Louts). cbn [bind].
     assert (Hsort : sort_resources o (map load outs) = Ok (map load outs)).
     { destruct o as [| |first last]; cbn [sort_resources]; try reflexivity.
@@ -782,6 +791,28 @@ Section Fix.
     rewrite Hsort. cbn [bind]. f_equal.
     rewrite map_map. cbn [r_node load]. unfold outs. rewrite map_map.
     apply map_ext_in. intros n Hn. apply strip_node_idem. apply Hclean. exact Hn.
+  Qed.
+
+  (* for trees of well-formed documents the guard on the output ids is discharged: since the HashTransformer
+     re-checks (hash_check), every successful build has distinct output ids (PipelineWfProofs.build_ids_unique_wf) *)
+  Theorem build_fixpoint_wf o t pre rules name :
+    tree_wf t ->
+    build_pre o t = Ok pre ->
+    Forall meta_clean pre ->
+    let outs := map strip_node pre in
+    (match o with
+     | PSortLegacy first last => node_order_total first last outs
+     | _ => True
+     end) ->
+    pipe_rules = Ok rules ->
+    nameref_transform pipe_cs nonstr rules (map load outs) = Ok (map load outs) ->
+    build nonstr o (leaf name outs) = Ok outs.
+  Proof.
+    intros Hwf Hpre Hclean outs G ER Hnr.
+    assert (Hb : build nonstr o t = Ok outs) by (rewrite build_pre_spec, Hpre; reflexivity).
+    pose proof (PipelineWfProofs.build_ids_unique_wf nonstr o t outs Hwf Hb) as D.
+    apply (build_fixpoint o t pre rules name Hpre Hclean); [|exact ER|exact Hnr].
+    destruct o; [exact D|exact D|exact G].
   Qed.
 End Fix.
 
